@@ -20,7 +20,7 @@ CAP_S = {"quick": 900, "thorough": 5400}
 
 def jobs(tier):
     out = []
-    structs = ["pair", "chain3", "pair_iso"] + (["triangle"] if tier == "thorough" else [])
+    structs = ["pair", "chain3", "pair_iso", "pair_isomid"] + (["triangle"] if tier == "thorough" else [])
     for s in structs:
         for mode in ("min", "max"):
             for rng in ("any", "nonneg"):
